@@ -2483,7 +2483,12 @@ bool IGXMLScanner::scanAttValue(  const   XMLAttDef* const    attDef
                 if (nextCh == quoteCh)
                 {
                     if (curReader == fReaderMgr.getCurrentReaderNum())
+                    {
+                        // a leading surrogate must not be the last character of the value
+                        if (gotLeadingSurrogate)
+                            emitError(XMLErrs::Expected2ndSurrogateChar);
                         return true;
+                    }
 
                     // Watch for spillover into a previous entity
                     if (curReader > fReaderMgr.getCurrentReaderNum())
